@@ -339,6 +339,34 @@ def syscache_job(job):
     return []
 
 
+def occupation_axis_job(job):
+    """The time axis returned with the bath occupations has one entry per occupation: start + k dt, k = 0..N, for every
+    (dt, N) - the grid must not be built by floating-point accumulation up to an end time."""
+    import oqupy
+    from oqupy import bath_dynamics
+    from oqupy.process_tensor import SimpleProcessTensor
+    dt, ns = job
+    sz = np.diag([0.5, -0.5])
+    corr = oqupy.PowerLawSD(alpha=0.3, zeta=1.0, cutoff=2.0, cutoff_type="exponential", temperature=0.0)
+    bath = oqupy.Bath(sz, corr)
+    out = []
+    for n in ns:
+        pt = SimpleProcessTensor(2, dt=dt)
+        for k in range(n):
+            pt.set_mpo_tensor(k, np.eye(4).reshape(1, 1, 4, 4))
+        pt.compute_caps()
+        b = bath_dynamics.TwoTimeBathCorrelations(oqupy.System(0.7 * np.diag([1.0, -1.0])), bath, pt,
+                                                  initial_state=np.array([[0.6, 0.3], [0.3, 0.4]]))
+        for freq in (1.3, 0.0):
+            t, occ = b.occupation(freq, progress_type="silent")
+            if len(t) != len(occ) or len(t) != n + 1:
+                out.append({"what": "occupation-axis-length", "dt": dt, "N": n, "freq": freq, "expected": n + 1,
+                            "observed": [len(t), len(occ)]})
+            elif np.max(np.abs(np.asarray(t) - dt * np.arange(n + 1))) > 1e-12:
+                out.append({"what": "occupation-axis-values", "dt": dt, "N": n, "freq": freq})
+    return out
+
+
 def spec_sets(n, rich):
     ints = '{[k |-> "int", v |-> x] : x \\in 0..%d}' % (n + 1)
     qs = sorted({4 * i + o for i in range(n + 1) for o in (-1, 0, 1)} - {-1})
@@ -459,6 +487,15 @@ def run(ctx):
         ctx.case({"bath_dynamics_requests": [str(x) for x in j[0]], "T": j[1]}, nontrivial=True)
         for x in mm:
             ctx.violation("C07:bath-dynamics:%s" % x["what"], "%s: %s" % (j, x), {"bath_dynamics": [[str(r) for r in j[0]], j[1]]})
+    # ---- time axis of the bath occupations over a lattice of (dt, N)
+    nmax_occ = 30 if quick else 60
+    ojobs = [(dtv, list(range(lo, min(lo + 6, nmax_occ + 1)))) for dtv in (0.1, 0.05, 0.2, 0.3, 0.01, 0.25, 0.07)
+             for lo in range(1, nmax_occ + 1, 6)]
+    for j, mm in zip(ojobs, core.pmap(occupation_axis_job, ojobs)):
+        for n_ in j[1]:
+            ctx.case({"occupation_axis": {"dt": j[0], "N": n_}}, nontrivial=True)
+        for x in mm:
+            ctx.violation("C07:bath-dynamics:%s" % x["what"], str(x), {"occupation_axis": [x["dt"], [x["N"]]]})
     # ---- the incremental store of system correlations behind bath_dynamics (SysCorrCache.tla)
     scn = 3 if quick else 4
     sc_consts = {"N": str(scn), "MaxReq": "2" if quick else "3", "Supplied": "{0, 2}" if quick else "{0, 1, 3}",
@@ -505,6 +542,8 @@ def replay(ctx, rep):
         mm = run_dt(tuple(c["dt_job"]))
     elif "syscache" in c:
         mm = syscache_job((c["syscache"], c["n"], c["system"]))
+    elif "occupation_axis" in c:
+        mm = occupation_axis_job(tuple(c["occupation_axis"]))
     else:
         # value tables are rebuilt from the spec
         raise core.MachineryError("replay of correlation cases: rerun the check (value tables come from TLC)")
